@@ -17,6 +17,7 @@ pub enum Sym {
     WvKey,
     WvDelta,
     WvKeyNoCfg,
+    WvKeyShort,
     WvCfgNoIdr,
     WvEmpty,
     WvEqual,
@@ -73,6 +74,7 @@ pub const FULL: &[Sym] = &[
     Sym::WvdB,
     Sym::WaEqual,
     Sym::WvKeyNoCfg,
+    Sym::WvKeyShort,
     Sym::WvCfgNoIdr,
     Sym::WvEmpty,
     Sym::WvEqual,
@@ -137,6 +139,9 @@ pub struct Fixtures {
     key_cfg: Vec<Bytes>,
     delta: Vec<Bytes>,
     key_nocfg: Vec<Bytes>,
+    /// the shortest keyframe that still carries its configuration (VP9: the header cut right
+    /// after the colour byte, whose colour-space bits are set; others: a one-byte slice body)
+    key_short: Bytes,
     cfg_noidr: Vec<Bytes>,
     audio_ok: Vec<Bytes>,
     bad_sync: Bytes,
@@ -154,6 +159,14 @@ impl Fixtures {
             key_cfg: vec![],
             delta: vec![],
             key_nocfg: vec![],
+            key_short: Bytes::new(match c {
+                VCodec::Vp9 => {
+                    let mut h = frames::Vp9Hdr { width: 100, height: 100, color_space: 2, ..Default::default() }.header(true);
+                    h.pop();
+                    h
+                }
+                _ => frames::video_frame(c, true, true, 1, 1).0,
+            }),
             cfg_noidr: vec![],
             audio_ok: vec![],
             bad_sync: Bytes::new(vec![]),
@@ -228,6 +241,7 @@ pub fn concretize(sym: Sym, step: usize, m: &Contract, fx: &Fixtures) -> Op {
         Sym::WvKey => wv(next, &fx.key_cfg[i], true),
         Sym::WvDelta => wv(next, &fx.delta[i], false),
         Sym::WvKeyNoCfg => wv(next, &fx.key_nocfg[i], true),
+        Sym::WvKeyShort => wv(next, &fx.key_short, true),
         Sym::WvCfgNoIdr => wv(next, &fx.cfg_noidr[i], false),
         Sym::WvEmpty => wv(next, &fx.empty, true),
         Sym::WvEqual => {
